@@ -35,7 +35,7 @@ def load_known(prop: str):
 
 
 def _run_task(task):
-    prop, lname, pidx, tier, seed = task
+    prop, lname, pidx, tier, seed, override = task
     try:
         import pyzstd  # noqa: F401  (pre-import: see DESIGN §1)
     except Exception:  # noqa: BLE001
@@ -65,6 +65,7 @@ def _run_task(task):
         topts = opts.pop(tier, {})
         opts = {k: v for k, v in opts.items() if k not in ("quick", "thorough", "optional_clauses", "replay_fn")}
         opts.update(topts)
+        opts.update(override)
         r = explore(label, fn, allowed_exc=lm.raises, seed=seed, known=known, **opts)
         # vacuity guard: every clause named literally in the harness must have been reached on some path
         import inspect
@@ -163,6 +164,8 @@ def main(argv=None) -> int:
     ap.add_argument("--jobs", type=int, default=int(os.environ.get("VERIF_JOBS", "0")) or min(16, os.cpu_count() or 4))
     ap.add_argument("--only", default=None, help="run only lemmas whose name contains this")
     ap.add_argument("--no-evidence", action="store_true")
+    ap.add_argument("--max-paths", type=int, default=None)
+    ap.add_argument("--timeout", type=float, default=None, help="per-lemma exploration budget (s)")
     a = ap.parse_args(argv)
     if a.prop == "replay":
         return cmd_replay(a.rest[0])
@@ -178,15 +181,23 @@ def main(argv=None) -> int:
         print(f"no lemmas registered for {prop}")
         return 2
     tasks = []
+    override = {}
+    if a.max_paths is not None:
+        override["max_paths"] = a.max_paths
+    if a.timeout is not None:
+        override["timeout_s"] = a.timeout
     for lm in lemmas:
         for i, _ in enumerate(lm.param_list()):
-            tasks.append((prop, lm.name, i, tier, seed))
+            tasks.append((prop, lm.name, i, tier, seed, override))
     if a.jobs <= 1 or len(tasks) == 1:
         results = [_run_task(t) for t in tasks]
     else:
         ctx = mp.get_context("spawn")
         with ctx.Pool(min(a.jobs, len(tasks))) as pool:
-            results = pool.map(_run_task, tasks, chunksize=1)
+            results = []
+            for r in pool.imap(_run_task, tasks, chunksize=1):
+                results.append(r)
+                print(f"  .. {r['label']}: {r['verdict']} ({r.get('wall_s', 0):.1f}s)", file=sys.stderr, flush=True)
     known = load_known(prop)
     rc = 0
     violations = 0
